@@ -500,3 +500,26 @@ add({"name": "dfs_main_tail", "file": "dfs/main.cc",
                (r"if \(!std::cout\)", "if (cout_->bad)", 1),
                (r'std::cerr << "error: failed to write to standard output\\n";', "g_diag++;", 1)],
      "dropped": ["diagnostic text"]})
+
+# ---- img_gzfile.cc (C10): the inflate loop of write_decompressed_data and check_zlib_error_code ---------------------
+THROW_ANY = (r"throw [A-Za-z_:]+\((?:[^()]|\([^()]*\))*\);", "{ VERIF_THROW(Other, 0); return; }")
+add({"name": "check_zlib_error_code", "file": "dfs/img_gzfile.cc", "anchor": r"void check_zlib_error_code\(int zerr\)",
+     "sig": "static void check_zlib_error_code(int zerr)",
+     "rules": [(THROW_ANY[0], THROW_ANY[1], ">=8"), (r"throw out_of_memory;", "{ VERIF_THROW(Other, 0); return; }", 1)]})
+add({"name": "gz_inflate_loop", "file": "dfs/img_gzfile.cc",
+     "anchor": r"const int input_buf_size = 512;",
+     "region_end": r"\}\s*FILE\* open_temporary_file\(\)",
+     "sig": "static void gz_inflate_loop(struct gzFILE *f, struct gzFILE *fout)",
+     "rules": [(r"typedef decltype\(stream\.avail_in\) avail_in_type;", "typedef unsigned int avail_in_type;  /* zlib: uInt */", 1),
+               (r"static_assert\([^;]*\);", "/* static_assert dropped */", 2),
+               (r"int zerr = Z_OK;|zerr = Z_OK;", "int zerr = Z_OK; struct z_stream_model stream; stream.avail_in = 0; stream.next_in = 0; stream.avail_out = 0; stream.next_out = 0;", 1),
+               (r"errno = 0;", "/* errno = 0 */", 2),
+               (r"auto got = stream\.avail_in = static_cast<avail_in_type>\(fread\(([^;]*)\)\);", r"avail_in_type got = stream.avail_in = (avail_in_type)(gz_fread(\1));", 1),
+               (r"\bferror\(f\)", "gz_ferror(f)", 1),
+               (r"throw DFS::FileIOError\(name, errno\);", "{ VERIF_THROW(Other, 0); return; }", 2),
+               (r"\binflate\(&stream, Z_NO_FLUSH\)", "gz_inflate(&stream)", 1),
+               (r"\bfwrite\(", "gz_fwrite(", 1),
+               (r"check_zlib_error_code\(zerr\);", "{ check_zlib_error_code(zerr); if (g_exc) return; }", 1),
+               (r"(while \(zerr != Z_STREAM_END\))", r"\1 GZ_OUTER_CONTRACT", 1),
+               (r"\bdo\b(\s*\{\s*stream\.next_out)", r"do GZ_INNER_CONTRACT\1", 1)],
+     "dropped": ["static_asserts on buffer sizes"]})
